@@ -292,7 +292,7 @@ def main():
                  and not any(o["verdict"] != "holds" for o in res["obligations"])]
         lim = int(os.environ.get("VERIF_NATIVE_MAX", "6" if a.tier == "quick" else "16"))
         for sc, res in cands[:lim]:
-            rp = os.path.join(VERIF, "replays", "tmp-%s-%s.json" % (prop, res["entry"]))
+            rp = os.path.join(VERIF, "replays", "tmp-%s-%s-%d.json" % (prop, res["entry"], os.getpid()))
             with open(rp, "w") as fh:
                 json.dump(dict(nondets=res["witness"]["nondets"]), fh)
             hit, out = native_replay(sess, sc.get("harness", "root"), sc, dict(kind="assert", msg="VERIF-"), rp, runs=1, timeout=90)
